@@ -89,6 +89,16 @@ def pm(ctx, text, timeout=600):
     return r.stdout.splitlines()
 
 
+_PENDING = []
+
+
+def pending(ctx, what, replay, *_a):
+    """a broken correspondence / translator without a failing input so far (protocol Q): the search goes on; reported as
+    `no-failing-input-found` at the end only when no input contradicting the property was found"""
+    _PENDING.append((what, replay))
+    ctx.log("correspondence broken (search continues):", what[:200])
+
+
 def db_op(db):
     """op line that loads a database: a file name of /repo/database or ('text', str)"""
     if isinstance(db, tuple):
@@ -427,12 +437,12 @@ def tie_calc_pr(ctx, exe, ok):
     hist.update(branches)
     hist["binary_parameter_maps_tied_to_text_and_symmetric"] = obligations["maps_checked"]
     if map_broken and not ctx.violations:
-        ctx.violation("the engine's critical constants / gas_binary_parameters map differ from the database text, or the map is not symmetric "
+        pending(ctx, "the engine's critical constants / gas_binary_parameters map differ from the database text, or the map is not symmetric "
                       "(no calc_PR case contradicting the equation of state was found): " + str(map_broken["difference"]),
-                      map_broken, found_input=False)
+                      map_broken)
     if broken and not ctx.violations:
-        ctx.violation("calc_PR differs from the proved Peng-Robinson model by more than 1e-10 (property relations still "
-                      "hold on the cases found)", broken, found_input=False)
+        pending(ctx, "calc_PR differs from the proved Peng-Robinson model by more than 1e-10 (property relations still "
+                      "hold on the cases found)", broken)
     return evals, distinct, hist
 
 
@@ -451,9 +461,9 @@ def tie_gate_constants(ctx):
     m_mb = re.search(r"gas_unknown->f > gas_phase_ptr->Get_total_p\(\) \+ " + num + r" \|\|\s*gas_unknown->moles > MIN_TOTAL", src)
     m_mt = re.search(r"\n\s*MIN_TOTAL\s*=\s*" + num + ";", pcpp)
     if not (m_lo and len(ladder) == 4 and m_else and m_pt and m_mb and m_mt):
-        ctx.violation("cannot re-read the gas rows of the convergence gate from model.cpp (code shape not recognised)",
+        pending(ctx, "cannot re-read the gas rows of the convergence gate from model.cpp (code shape not recognised)",
                       {"kind": "gate-shape", "found": [bool(m_lo), len(ladder), bool(m_else), bool(m_pt), bool(m_mb), bool(m_mt)]},
-                      found_input=False)
+                      )
         return 0
     lo, lov, hi, hiv = (float(x) for x in m_lo.groups())
     steps = [(float(a), float(w), float(d)) for a, w, d in ladder]
@@ -495,10 +505,10 @@ def tie_gate_constants(ctx):
     got = pm(ctx, "\n".join(ops) + "\n")
     for o, w, g in zip(ops, want, got):
         if w != g.strip():
-            ctx.violation("the gas rows of the convergence gate in model.cpp no longer are the ones the theorems are about "
+            pending(ctx, "the gas rows of the convergence gate in model.cpp no longer are the ones the theorems are about "
                           f"(constants re-read from the source: clamp {lo}/{hi}, ladder {steps}, else {ew}/{ed}, pressure test {pt1}/{pt2}, "
                           f"mb_gases {eps_mb}, MIN_TOTAL {min_total})", {"kind": "gate", "op": o, "source_formula": w, "model": g},
-                          found_input=False)
+                          )
             break
     ctx.cov["gate_constants_from_source"] = dict(clamp=[lo, hi], ladder=steps, otherwise=[ew, ed], pressure_test=[pt1, pt2],
                                                  mb_gases=eps_mb, MIN_TOTAL=min_total, probes=len(ops))
@@ -765,14 +775,15 @@ def real_runs(ctx, exe, ok):
         if judged == 1 and checks:
             ctx.sample({"real_input": case["input"].splitlines()[:14], "relations_checked": sorted({c[0] for c in checks})})
     if map_broken and not ctx.violations:
-        ctx.violation("after a run with PHASES / GAS_BINARY_PARAMETERS in the input the engine's records differ from the text / the map is not symmetric "
+        pending(ctx, "after a run with PHASES / GAS_BINARY_PARAMETERS in the input the engine's records differ from the text / the map is not symmetric "
                       "(no run contradicting the property's relations was found): " + str(map_broken["difference"]),
-                      map_broken, found_input=False)
+                      map_broken)
     return len(cases), judged, hist, stats, rels, cnt_all
 
 
 # ------------------------------------------------------------------------------------------------ entry points
 def run(ctx):
+    del _PENDING[:]
     ok = ctx.prove(["PhreeqcVerif.Properties.C19"])
     ctx.build_lib()
     exe = ctx.build_harness("ph_gas")
@@ -782,7 +793,7 @@ def run(ctx):
         ctx.cov["calc_PR_tie"] = hist1
         ev1 += tie_gate_constants(ctx)
         ev2 = d2 = 0
-        if not ctx.violations or not ok:
+        if not ctx.violations:
             ev2, d2, hist2, stats, rels, cnt = real_runs(ctx, exe, ok)
             ctx.cov["real_runs_input_distribution"] = hist2
             ctx.cov["real_runs_outcome"] = stats
@@ -800,6 +811,8 @@ def run(ctx):
                        "compared with the Lean Float model at 1e-10; non-trivial = not the early return. (b) real runs: fixed-volume, "
                        "fixed-pressure, -equilibrate, ideal (wateq4f.dat) and EQUILIBRIUM_PHASES gases over random T, P, composition, "
                        "brine strength; non-trivial = run completed and at least one relation of the property was evaluated.")
+    if _PENDING and not ctx.violations:
+        ctx.violation(_PENDING[0][0], _PENDING[0][1], found_input=False)
     if not ok and not ctx.violations:
         ctx.violation("proof obligation of C19 no longer checks and no failing input was found",
                       {"broken": ctx.proof_broken}, found_input=False)
